@@ -91,6 +91,13 @@ func c19Scenarios(tier string) []*Scenario {
 	add("hedge(timeout)", []Spec{hedge(1, nil), T(30)}, one([]Out{{V: 1, Block: true}, {V: 2, Dur: 5}}))
 	add("timeout(hedge)", []Spec{T(30), hedge(1, []Cond{{K: "result", V: 1}})}, one([]Out{{Err: E1, Dur: 100, Coop: true}}))
 	add("retry(hedge)", []Spec{{Kind: KRetry, MaxRetries: 1}, hedge(1, []Cond{{K: "result", V: 1}})}, one([]Out{{Err: E1, Dur: 30}, {Err: E1, Dur: 5}, {V: 1, Dur: 5}}))
+	// a hedge started at the very instant another attempt's result is accepted: whatever it then waits
+	// in (a retry delay, a limiter or bulkhead wait) ends with the execution
+	longRetry := Spec{Kind: KRetry, MaxRetries: 1, Delay: 1000}
+	add("hedge(retry)-late-hedge-in-retry-delay", []Spec{hedge(1, nil), longRetry}, one([]Out{{V: 1, Dur: 20}, {Err: E1}, {V: 2, Dur: 5}}))
+	add("hedge(retry)-late-hedge-in-retry-delay-2", []Spec{hedge(2, nil), longRetry}, one([]Out{{Err: E1, Dur: 100, Coop: true}, {V: 1, Dur: 20}, {Err: E1}, {V: 2, Dur: 5}}))
+	add("hedge(limiter-wait)-late-hedge", []Spec{hedge(1, nil), {Kind: KLimiter, Smooth: true, Interval: 500, LWait: 2000}}, one([]Out{{V: 1, Dur: 20}, {V: 2, Dur: 5}}))
+	add("hedge(bulkhead-wait)-late-hedge", []Spec{hedge(1, nil), {Kind: KBulkhead, Conc: 1, BWait: 1000}}, one([]Out{{V: 1, Dur: 20, Coop: true}, {V: 2, Dur: 5}}))
 	add("timeout(bulkhead-wait)", []Spec{T(30), {Kind: KBulkhead, Conc: 1, Held: 1, BWait: 50}}, one(ok))
 	add("timeout(limiter-wait)", []Spec{T(30), {Kind: KLimiter, Smooth: true, Interval: 100, Used: 1, LWait: 200}}, one(ok))
 	// the same execution three times on the same instances: the live set does not grow
